@@ -31,6 +31,8 @@ func main() {
 		replay(os.Args[2:])
 	case "record":
 		record(os.Args[2:])
+	case "eval":
+		evalCmd(os.Args[2:])
 	case "gram":
 		gram(os.Args[2:])
 	case "total":
@@ -397,4 +399,22 @@ func record(args []string) {
 		}
 	}
 	fmt.Fprintf(os.Stderr, "recorded %d runs (%d texts rejected by the compiler)\n", n, rejected)
+}
+
+// eval: compile and run expressions given on the command line (exploration aid)
+func evalCmd(args []string) {
+	for _, e := range args {
+		m, err, pan := compile(xpm.ToReal(e))
+		fmt.Printf("== %s\n", e)
+		if err != nil || pan != nil {
+			fmt.Printf("   compile: %v %v\n", err, pan)
+			continue
+		}
+		prog, _ := xpm.ParseListing(m.PrintMachine())
+		for _, in := range prog {
+			fmt.Printf("   %s %s\n", in.I, in.S)
+		}
+		rr := runOnce(0, m, 0, true)
+		fmt.Printf("   result: %s panic=%v\n", short(rr), rr.Panic)
+	}
 }
